@@ -61,6 +61,8 @@ class MockSock:
         self.sent = []  # (t, data, dest)
         self.timeout = 0.05
         self.closed = False
+        self.fail_send = None  # fail_send(data, dest) -> True: the OS refuses this send (OSError), nothing reaches the wire
+        self.refused = []
 
     def settimeout(self, t):
         self.timeout = t
@@ -76,6 +78,9 @@ class MockSock:
 
     def sendto(self, data, dest):
         t = self.net.clock()
+        if self.fail_send is not None and self.fail_send(bytes(data), dest):
+            self.refused.append((t, bytes(data), dest))
+            raise OSError(101, "Network is unreachable (injected)")
         self.sent.append((t, bytes(data), dest))
         self.net.send(self.addr, (dest[0], dest[1]), bytes(data))
 
